@@ -102,8 +102,10 @@ def r141(ctx):
     seen = {}
     # row variables: targets of the loops over the rows of the trajectory table (any naming)
     rowvars = set()
+    # names holding the table itself (`snapshots = traj["data"]`)
+    table_names = {n.targets[0].id for n in walk_local(lp) if isinstance(n, ast.Assign) and isinstance(n.targets[0], ast.Name) and "'data'" in ast.unparse(n.value).replace('"', "'") and not isinstance(n.value, ast.Call)}
     for L in [x for x in walk_local(lp) if isinstance(x, ast.For)]:
-        if "'data'" in ast.unparse(L.iter).replace('"', "'"):
+        if "'data'" in ast.unparse(L.iter).replace('"', "'") or any(isinstance(x, ast.Name) and x.id in table_names for x in ast.walk(L.iter)):
             for t_ in ast.walk(L.target):
                 if isinstance(t_, ast.Name):
                     rowvars.add(t_.id)
